@@ -20,7 +20,8 @@
 (* rejection (VIOLATION) only while the unit is well formed; in an         *)
 (* ill-formed unit the property fixes nothing but the any-input clause, so *)
 (* the unit is switched to mode "skip" (reported as DRIFT) and only that   *)
-(* clause is checked at its End.                                           *)
+(* clause and the sequence clause (as self-consistency of the observed     *)
+(* rows / sequences / resumed rows) are checked at its End.                *)
 EXTENDS LineSM, Json, IOUtils
 VARIABLES l, H, S, L, W, mode
 Rec == ndJsonDeserialize(IOEnv.TRACE)
@@ -90,8 +91,21 @@ ExecErr == IsEv("ExecErr") /\ mode = "check" /\ S.end = "run" /\ LET r == Rec[l]
 (* skip mode: the remaining events of an ill-formed unit are not compared *)
 SkipEv == mode = "skip" /\ l <= Len(Rec) /\ Rec[l].ev \in {"Ins", "InsErr", "ExecErr"} /\ l' = l + 1
           /\ UNCHANGED <<H, S, L, W, mode>>
+(* the sequence clause on the observation alone: resumed rows = straight    *)
+(* rows up to the last end_sequence row, bounds = first / end addresses    *)
+RECURSIVE ObsConcat(_, _)
+ObsConcat(list, k) == IF k > Len(list) THEN <<>> ELSE list[k].rows \o ObsConcat(list, k + 1)
+ObsConsistent(r) ==
+    (r.end = "done" /\ r.seqs.ok) =>
+      /\ ObsConcat(r.seqs.list, 1) = SubSeq(r.rows, 1, LastEs(r.rows, Len(r.rows)))
+      /\ \A k \in 1..Len(r.seqs.list) :
+           LET q == r.seqs.list[k] IN
+           /\ q.rend = "done" /\ Len(q.rows) >= 1
+           /\ RowEs(q.rows[Len(q.rows)]) /\ q.rows[Len(q.rows)][1] = q.end
+           /\ \A j \in 1..Len(q.rows) - 1 : ~RowEs(q.rows[j])
+           /\ (Len(q.rows) >= 2 => q.start = q.rows[1][1])
 SkipEnd == mode = "skip" /\ IsEv("End") /\ LET r == Rec[l] IN
-    /\ (InRange(r.rows, H.asz) /\ Monotone(r.rows)) = TRUE
+    /\ (InRange(r.rows, H.asz) /\ Monotone(r.rows) /\ ObsConsistent(r)) = TRUE
     /\ UNCHANGED <<H, S, L, W, mode>>
 
 EndOk(r, F, RR) ==
@@ -111,7 +125,7 @@ End == IsEv("End") /\ mode = "check" /\ LET r == Rec[l] IN
     \E F \in {IF S.end = "run" THEN [S EXCEPT !.end = "done"] ELSE S} :
     \E RR \in {ResumedRuns(H, [list |-> L, ok |-> TRUE], F)} :
     /\ IF EndOk(r, F, RR) = TRUE THEN S' = F /\ UNCHANGED <<H, L, W, mode>>
-       ELSE /\ ~W.wf /\ (InRange(r.rows, H.asz) /\ Monotone(r.rows)) = TRUE
+       ELSE /\ ~W.wf /\ (InRange(r.rows, H.asz) /\ Monotone(r.rows) /\ ObsConsistent(r)) = TRUE
             /\ Skip /\ UNCHANGED W
 
 BadHeader == IsEv("BadHeader") /\ UNCHANGED <<H, S, L, W, mode>>
